@@ -8,9 +8,11 @@ import (
 	"errors"
 	"math/big"
 	"strings"
+	"time"
 
 	"github.com/ChainSafe/sygma-relayer/chains/evm/calls/consts"
 	"github.com/ChainSafe/sygma-relayer/chains/evm/calls/events"
+	"github.com/ChainSafe/sygma-relayer/chains/evm/listener/eventHandlers"
 	btcExecutor "github.com/ChainSafe/sygma-relayer/chains/btc/executor"
 	evmExecutor "github.com/ChainSafe/sygma-relayer/chains/evm/executor"
 	subExecutor "github.com/ChainSafe/sygma-relayer/chains/substrate/executor"
@@ -179,6 +181,60 @@ func (c c04BtcFetcherVar) GetBlockVerboseTx(h *chainhash.Hash) (*btcjson.GetBloc
 	return c04BtcFetcher{*c.head}.GetBlockVerboseTx(h)
 }
 
+// c04V2Listener serves one RetryV2 event; everything else is empty.
+type c04V2Listener struct{ ev events.RetryV2Event }
+
+func (l c04V2Listener) FetchKeygenEvents(ctx context.Context, a common.Address, s, e *big.Int) ([]ethTypes.Log, error) {
+	return nil, nil
+}
+func (l c04V2Listener) FetchFrostKeygenEvents(ctx context.Context, a common.Address, s, e *big.Int) ([]ethTypes.Log, error) {
+	return nil, nil
+}
+func (l c04V2Listener) FetchRefreshEvents(ctx context.Context, a common.Address, s, e *big.Int) ([]*events.Refresh, error) {
+	return nil, nil
+}
+func (l c04V2Listener) FetchDeposits(ctx context.Context, a common.Address, s, e *big.Int) ([]*events.Deposit, error) {
+	return nil, nil
+}
+func (l c04V2Listener) FetchRetryV1Events(ctx context.Context, a common.Address, s, e *big.Int) ([]events.RetryV1Event, error) {
+	return nil, nil
+}
+func (l c04V2Listener) FetchRetryV2Events(ctx context.Context, a common.Address, s, e *big.Int) ([]events.RetryV2Event, error) {
+	return []events.RetryV2Event{l.ev}, nil
+}
+func (l c04V2Listener) FetchRetryDepositEvents(ev events.RetryV1Event, a common.Address, c *big.Int) ([]events.Deposit, error) {
+	return nil, nil
+}
+
+// c04LogNode: an EVM node that answers log queries; the first len(faults) queries fail with the scripted error kinds.
+type c04LogNode struct {
+	faults []string
+	reads  []string
+}
+
+func (n *c04LogNode) FetchEventLogs(ctx context.Context, a common.Address, ev string, s, e *big.Int) ([]ethTypes.Log, error) {
+	to := "nil"
+	if e != nil {
+		to = e.String()
+	}
+	n.reads = append(n.reads, s.String()+"."+to)
+	if len(n.reads) <= len(n.faults) {
+		return nil, scriptedErr(n.faults[len(n.reads)-1][0])
+	}
+	return nil, nil
+}
+func (n *c04LogNode) WaitAndReturnTxReceipt(common.Hash) (*ethTypes.Receipt, error) { return nil, errRPC }
+func (n *c04LogNode) LatestBlock() (*big.Int, error)                               { return nil, errRPC }
+func (n *c04LogNode) BlockByNumber(context.Context, *big.Int) (*ethTypes.Block, error) {
+	return nil, errRPC
+}
+
+type c04DepositHandler struct{}
+
+func (c04DepositHandler) HandleDeposit(sourceID, destID uint8, nonce uint64, resourceID [32]byte, calldata, handlerResponse []byte, messageID string, timestamp time.Time) (*message.Message, error) {
+	return message.NewMessage(sourceID, destID, nil, messageID, "t", timestamp), nil
+}
+
 func retryMsg(h string) *message.Message {
 	return message.NewMessage(2, 1, retry.RetryMessageData{SourceDomainID: 1, DestinationDomainID: 2,
 		BlockHeight: bigArg(h), ResourceID: [32]byte{1}}, "retry-1-2", retry.RetryMessageType, timeZero())
@@ -247,6 +303,66 @@ func init() {
 			return "skip"
 		}
 		return "fetched:" + strings.Join(c.fetched, ",")
+	}
+	// retryv2 <kind> <latest|E|F> <h> <conf>  =>  proc:<s>.<e> | err
+	//   the whole retry-by-height path: a Retry(uint8,uint8,uint256,bytes32) event with height h is turned into a retry
+	//   message by the REAL RetryV2EventHandler, and that message is handled by the real retry message handler of the
+	//   source chain type (evm | btc | sub) in front of a recording deposit processor.
+	ops["C04.retryv2"] = func(a []string) string {
+		ch := make(chan []*message.Message, 4)
+		ev := events.RetryV2Event{SourceDomainID: 1, DestinationDomainID: 2, BlockHeight: bigArg(a[2]), ResourceID: [32]byte{1}}
+		h := eventHandlers.NewRetryV2EventHandler(zerolog.Context{}, c04V2Listener{ev}, common.Address{}, 3, ch)
+		if err := h.HandleEvents(big.NewInt(10), big.NewInt(14)); err != nil {
+			return "err"
+		}
+		var msg *message.Message
+		select {
+		case ms := <-ch:
+			msg = ms[0]
+		case <-time.After(10 * time.Second):
+			return "nomsg"
+		}
+		if ev.BlockHeight.String() != a[2] {
+			return "mutated-event"
+		}
+		switch a[0] {
+		case "evm":
+			p := &c04Processor{}
+			_, err := evmExecutor.NewRetryMessageHandler(p, c04Latest{a[1]}, c04PropStore{}, bigArg(a[3]), make(chan []*message.Message, 4)).HandleMessage(msg)
+			return procOut(err, p.calls)
+		case "btc":
+			p := &c04BtcProcessor{}
+			_, err := btcExecutor.NewRetryMessageHandler(p, c04BtcFetcher{a[1]}, bigArg(a[3]), c04PropStore{}, make(chan []*message.Message, 4)).HandleMessage(msg)
+			return procOut(err, p.calls)
+		case "sub":
+			p := &c04Processor{}
+			_, err := subExecutor.NewRetryMessageHandler(p, &c04SubConn{fin: a[1]}, c04PropStore{}, make(chan []*message.Message, 4)).HandleMessage(msg)
+			return procOut(err, p.calls)
+		}
+		return "NOOP"
+	}
+	// evmretryreal <latest> <h> <conf> <faults>  =>  reads=<from.to,…>;<proc:<n msgs>|err>
+	//   retry by height over the REAL stack: RetryMessageHandler -> DepositEventHandler -> events.Listener -> node fake.
+	//   faults: ','-separated error kinds (g t w u n c, see scriptedErr) for the first node reads, '-' = none. The node
+	//   holds a deposit in every block; `reads` are the log queries the node received (to = nil is "up to the head").
+	ops["C04.evmretryreal"] = func(a []string) string {
+		node := &c04LogNode{faults: items(a[3], ",")}
+		el := events.NewListener(node)
+		ch := make(chan []*message.Message, 16)
+		dh := eventHandlers.NewDepositEventHandler(el, c04DepositHandler{}, common.Address{7}, 1, ch)
+		rh := evmExecutor.NewRetryMessageHandler(dh, c04Latest{a[0]}, c04PropStore{}, bigArg(a[2]), ch)
+		_, err := rh.HandleMessage(retryMsg(a[1]))
+		res := "err"
+		if err == nil {
+			n := 0
+			select {
+			case ms := <-ch:
+				n = len(ms)
+			default:
+			}
+			res = "proc:" + itoa(n)
+		}
+		return "reads=" + joinOr(node.reads, ",") + ";" + res
 	}
 	// seq <kind> <conf> <k> <steps>  =>  outputs of the steps, '|'-separated.
 	// All steps run against ONE set of objects wired like app.Run wires them: the chain config's BlockConfirmations
@@ -339,6 +455,37 @@ func genC04(g *G) {
 			}
 		}
 	}
+	// BTC scan with the REAL deposit handler reading a chain whose unconfirmed blocks are re-organised between two scan
+	// steps: the block handed on at a height must be the one on the active chain when that height is confirmed
+	for _, sw := range []string{"0,0,1,1,1", "0,1,1,1,1", "0,1,2,2,2", "0,1,0,1,1", "0,0,0,1,1"} {
+		for conf := int64(1); conf <= 3; conf++ {
+			b := strings.Split(sw, ",")
+			rs := []string{}
+			for i, br := range b {
+				rs = append(rs, itoa64(5+conf+int64(i))+"~1~"+br+":n:s")
+			}
+			g.Emit("scan", "btc+", itoa64(conf), "1", "1", "5", strings.Join(rs, ";"))
+		}
+	}
+	for i := 0; i < g.Count(150, 3000); i++ {
+		conf := int64(1 + g.Intn(3))
+		start := int64(g.Intn(6))
+		head := start + conf - 1 + int64(g.Intn(2))
+		br := 0
+		rs := []string{}
+		for j := 0; j < 2+g.Intn(6); j++ {
+			head += int64(g.Intn(3))
+			if g.Intn(3) == 0 {
+				br = (br + 1) % 3
+			}
+			f := "n"
+			if g.Intn(6) == 0 {
+				f = "0" + g.Pick([]string{"a", "b"}) + g.Pick([]string{"g", "t", "w", "u", "n", "c"})
+			}
+			rs = append(rs, itoa64(head)+"~"+itoa(g.Intn(3))+"~"+itoa(br)+":"+f+":s")
+		}
+		g.Emit("scan", "btc+", itoa64(conf), "1", "1", itoa64(start), strings.Join(rs, ";"))
+	}
 	// retry guards: exhaustive grid
 	for conf := int64(0); conf <= 4; conf++ {
 		for h := int64(0); h <= 9; h++ {
@@ -402,7 +549,10 @@ func genC04(g *G) {
 					g.Emit("evmretrytx", L, H, C)
 					g.Emit("evmretrymsg", L, H, C)
 					g.Emit("btcretrymsg", L, H, C)
+					g.Emit("retryv2", "evm", L, H, C)
+					g.Emit("retryv2", "btc", L, H, C)
 					if conf == 0 {
+						g.Emit("retryv2", "sub", L, H, C)
 						g.Emit("subretrymsg", L, H)
 						g.Emit("subretryevent", L, H)
 					}
@@ -423,6 +573,37 @@ func genC04(g *G) {
 					g.Emit("scan", "evm", C, "3", "1", H, "100:n:s")
 				}
 			}
+		}
+	}
+	// heights whose low 64 bits read as a NEGATIVE int64 (2^64-1 … 2^64-4, 2^63 …): through the whole retry-by-height path
+	for _, conf := range []int64{0, 2} {
+		for _, H := range []string{"18446744073709551615", "18446744073709551614", "18446744073709551613", "18446744073709551612",
+			"9223372036854775808", "9223372036854775807", "36893488147419103230", "340282366920938463463374607431768211454"} {
+			for _, L := range []string{"100", "0", "9223372036854775807"} {
+				for _, kind := range []string{"evm", "btc", "sub"} {
+					if kind == "sub" && (conf != 0 || L != "100") {
+						continue
+					}
+					g.Emit("retryv2", kind, L, H, itoa64(conf))
+				}
+			}
+		}
+	}
+	for conf := int64(0); conf <= 3; conf++ {
+		for h := int64(0); h <= 6; h++ {
+			for latest := int64(0); latest <= 10; latest++ {
+				g.Emit("retryv2", "evm", itoa64(latest), itoa64(h), itoa64(conf))
+				g.Emit("retryv2", "btc", itoa64(latest), itoa64(h), itoa64(conf))
+				if conf == 0 {
+					g.Emit("retryv2", "sub", itoa64(latest), itoa64(h), "0")
+				}
+			}
+		}
+	}
+	// retry by height over the real EVM stack with every error kind on the first one or two node reads
+	for _, fl := range []string{"-", "g", "t", "w", "u", "n", "c", "u,u", "n,g", "t,t,t", "u,n,u"} {
+		for _, lh := range [][2]string{{"13", "10"}, {"12", "10"}, {"200", "150"}, {"150", "150"}, {"18446744073709551716", "18446744073709551711"}} {
+			g.Emit("evmretryreal", lh[0], lh[1], "2", fl)
 		}
 	}
 	// sequences on shared objects (the confirmations *big.Int is shared like in app.Run): retries of various heights,
